@@ -183,6 +183,46 @@ def attached_comment_words(v, drop_unrendered_trailing=False):
     return out
 
 
+def contains_set(v):
+    """sets are rebuilt when comments are stripped, which changes their iteration order: no element-order comparison for them"""
+    if isinstance(v, (set, frozenset)):
+        return True
+    if isinstance(v, dict):
+        return any(contains_set(k) or contains_set(x) for k, x in v.items())
+    if isinstance(v, (list, tuple)):
+        return any(contains_set(x) for x in v)
+    if type(v).__name__ == 'CallObj':
+        return any(contains_set(x) for x in v.args) or any(contains_set(x) for _, x in v.kwargs)
+    return False
+
+
+def has_trailing_on_empty_dict_subclass(v):
+    """does the value contain trailing_comment(x, non-empty text) with x an empty instance of a proper dict subclass?  (finding K7)"""
+    found = [False]
+
+    def walk(x, trailing=False):
+        if isinstance(x, P._TrailingCommentedValue):
+            return walk(x.value, trailing or bool(x.comment))
+        if isinstance(x, P._CommentedValue):
+            return walk(x.value, trailing)
+        if isinstance(x, dict):
+            if trailing and not x and type(x) is not dict:
+                found[0] = True
+            for k, y in x.items():
+                walk(k)
+                walk(y)
+        elif isinstance(x, (list, tuple, set, frozenset)):
+            for y in x:
+                walk(y)
+        elif type(x).__name__ == 'CallObj':
+            for y in x.args:
+                walk(y)
+            for _, y in x.kwargs:
+                walk(y)
+    walk(v)
+    return found[0]
+
+
 def value_chunk(args):
     cases, mode = args
     drv = _driver()
@@ -219,6 +259,8 @@ def value_chunk(args):
                 bad = None
                 if mode in ('c01', 'c09'):
                     bad = oracle_c01(sorted_copy(plain) if st[5] else plain, text)
+                    if bad and 'subclasses.' in text:       # instances of the generated subclasses: evaluate with their module in scope
+                        bad = oracle_eval_equal(plain, text)
                     if bad:
                         bad = {'kind': 'does-not-evaluate-back', 'why': bad}
                 if not bad and mode in ('c01', 'c03', 'c09'):
@@ -242,6 +284,18 @@ def value_chunk(args):
                             if line.strip() and lead % ind != 0:
                                 bad = {'kind': 'indent-not-multiple', 'line': line}
                                 break
+                if not bad and mode == 'c09' and a is not None and not contains_set(plain):
+                    # "the same syntax tree as the uncommented value": the uncommented value printed with the same settings
+                    try:
+                        with warnings.catch_warnings():
+                            warnings.simplefilter('ignore')
+                            t0 = pp.pformat(plain, indent=st[0], width=st[1], depth=st[3], ribbon_width=st[2], max_seq_len=st[4], sort_dict_keys=st[5])
+                        a0 = ast_of(t0)
+                    except Exception:
+                        a0 = None
+                    if a0 is not None and a0 != a:
+                        bad = {'kind': 'syntax-tree-differs-from-uncommented', 'uncommented': t0[:300],
+                               'empty_dict_subclass_with_trailing_comment': has_trailing_on_empty_dict_subclass(value)}
                 if not bad and mode == 'c09':
                     got = comment_words(text)
                     want = attached_comment_words(value)
@@ -354,6 +408,16 @@ def comments_section(tier, seed, mode='c09'):
                 cases.append((pp.trailing_comment(v, text), narrow))
     if tier == 'quick' and len(cases) > 5000:
         cases = rng.sample(cases, 5000)
+    # comments on instances of subclasses of the built-in containers (empty and non-empty), alone and nested
+    import subclasses as S
+    for base, vals in ((list, ([], [1, 'a'])), (tuple, ((), (1,), (1, 2))), (set, (set(), {1})), (dict, ({}, {'a': 1})),
+                       (str, ('', 'ab cd')), (int, (7,))):
+        for raw in vals:
+            for text in ('c', 'w1 w2\nw3'):
+                inst = S.make(rng, base, raw)
+                for cv in (pp.comment(inst, text), pp.trailing_comment(inst, text), [pp.trailing_comment(inst, text), 1],
+                           {'k': pp.comment(inst, text)}, pp.comment(pp.trailing_comment(inst, text), 'both')):
+                    cases.append((cv, narrow))
     n_rand = 1200 if tier == 'quick' else 15000
     for _ in range(n_rand):
         v = add_comments(rng, V.rand_value(rng, budget=rng.choice([5, 10, 20, 40])), rng.choice([0.15, 0.3, 0.6]))
@@ -757,6 +821,36 @@ def unique_tree(rng, depth=0):
     return go(depth)
 
 
+def pruned_src(v, d, k=0, empties=()):
+    """reference rendering (layout-free source text) of `v` with depth=d, written from the property statement: an element nested
+    inside k containers is printed in full if k < d, otherwise replaced by an ellipsis placeholder of its own type.
+    Listed exceptions: None / bool / Ellipsis are always printed in full (K2), str / bytes dict keys are printed with the dict's
+    own level (K5).  An empty container at the cut hides nothing: both its full form and its placeholder are accepted
+    (`empties` = the types for which the placeholder form is expected)."""
+    t = type(v)
+    if v is None or t is bool or v is Ellipsis:
+        return repr(v) if v is not Ellipsis else '...'
+    cut = k >= d
+    if t in (list, tuple, set, frozenset, dict) and len(v) == 0 and not (cut and t in empties):
+        return {list: '[]', tuple: '()', set: 'set()', frozenset: 'frozenset()', dict: '{}'}[t]
+    if t is list:
+        return '[...]' if cut else '[' + ', '.join(pruned_src(x, d, k + 1, empties) for x in v) + ']'
+    if t is tuple:
+        return '(...)' if cut else '(' + ', '.join(pruned_src(x, d, k + 1, empties) for x in v) + (',)' if len(v) == 1 else ')')
+    if t is set:
+        return 'set(...)' if cut else '{' + ', '.join(pruned_src(x, d, k + 1, empties) for x in v) + '}'
+    if t is frozenset:
+        return 'frozenset(...)' if cut else 'frozenset([' + ', '.join(pruned_src(x, d, k + 1, empties) for x in v) + '])'
+    if t is dict:
+        if cut:
+            return '{...}'
+        return '{' + ', '.join((repr(a) if isinstance(a, (str, bytes)) else pruned_src(a, d, k + 1, empties)) + ': ' + pruned_src(b, d, k + 1, empties)
+                               for a, b in v.items()) + '}'
+    if cut:
+        return '%s(...)' % t.__name__
+    return repr(v)
+
+
 def depth_chunk(args):
     cases = args
     drv = _driver()
@@ -813,6 +907,24 @@ def depth_chunk(args):
                                 else:
                                     bad = 'leaf %s at level %d >= depth %d is printed in full' % (token, k, d)
                                     break
+                        if not bad:
+                            # the whole output against the reference pruning (placeholders of the right type, everything above the cut as is)
+                            import itertools
+                            try:
+                                got = ast_of(text)
+                            except SyntaxError:
+                                got = None
+                            ok = False
+                            kinds5 = (dict, list, tuple, set, frozenset)
+                            for r in range(6):
+                                for emp in itertools.combinations(kinds5, r):
+                                    if got == ast.dump(ast.parse('(' + pruned_src(value, d, 0, emp) + '\n)', mode='eval')):
+                                        ok = True
+                                        break
+                                if ok:
+                                    break
+                            if not ok:
+                                bad = 'output is not the depth-pruned value: expected (up to layout) %s' % pruned_src(value, d)[:300]
                         if not bad and known_bad and not any(f['value'] == repr(value)[:300] for f in fails):
                             fails.append({'kind': known_bad[0], 'why': known_bad[1], 'value': repr(value)[:300], 'settings': st, 'text': text[:500]})
                 if bad:
@@ -961,8 +1073,8 @@ def token_chunk(args):
     return n, nt, mism, fails, skipped
 
 
-def tokens_section(tier, seed):
-    rng = random.Random(seed * 31 + 17)
+def tokens_section(tier, seed, limits=False):
+    rng = random.Random(seed * 31 + 17 + (5 if limits else 0))
     cases = []
     n_rand = 700 if tier == 'quick' else 8000
     for _ in range(n_rand):
@@ -971,8 +1083,8 @@ def tokens_section(tier, seed):
             v = add_comments(rng, v, rng.choice([0.15, 0.4]))
         sorts = (0, 1) if sortable(V.strip_comments(v)) and rng.random() < 0.3 else (0,)
         sets = settings_for(rng, v, 'quick', sorts)
-        if rng.random() < 0.3:      # depth / max_seq_len limits: canonW depends on them, not on the layout
-            d, m = rng.choice([None, 1, 2, 3]), rng.choice([1000, 1, 2, 3])
+        if limits or rng.random() < 0.3:      # depth / max_seq_len limits: canonW depends on them, not on the layout
+            d, m = rng.choice([None, 0, 1, 2, 3]), rng.choice([1000, None, 1, 2, 3, 5])
             sets = [(i, w, r, d, m, s) for (i, w, r, _, _, s) in sets]
         cases.append((v, sets))
     chunks = [cases[i:i + 25] for i in range(0, len(cases), 25)]
